@@ -625,7 +625,7 @@ impl<'a> Searcher<'a> {
                     match entry {
                         Ok(entry) => {
                             let path = entry.path();
-                            let pass_ignores = if apply_gitignore || apply_hgignore || apply_dockerignore {
+                            let (pass_ignores, descend) = if apply_gitignore || apply_hgignore || apply_dockerignore {
                                 // the ignore rules apply to the entry's own location, whatever
                                 // spelling the search root was given in
                                 let canonical_path = canonical_dir.join(entry.file_name());
@@ -650,14 +650,24 @@ impl<'a> Searcher<'a> {
                                     canonical_path.to_string_lossy().as_ref(),
                                 );
 
-                                pass_gitignore && pass_hgignore && pass_dockerignore
+                                // a later `!pattern` of a .dockerignore may re-include entries
+                                // below an excluded directory, so such a directory is still walked
+                                let docker_may_reinclude = !pass_dockerignore
+                                    && self.dockerignore_filters.iter().any(|f| f.negate);
+
+                                (
+                                    pass_gitignore && pass_hgignore && pass_dockerignore,
+                                    pass_gitignore
+                                        && pass_hgignore
+                                        && (pass_dockerignore || docker_may_reinclude),
+                                )
                             } else {
-                                true
-                            };                            
+                                (true, true)
+                            };
 
                             // If the path passes the filters, process it
-                            if pass_ignores {
-                                if min_depth == 0 || depth >= min_depth {
+                            if descend {
+                                if pass_ignores && (min_depth == 0 || depth >= min_depth) {
                                     let checked = self.check_file(&entry, &None)?;
                                     if !checked {
                                         return Ok(());
